@@ -8,7 +8,8 @@ from ..gen.grids import build_grid, grid_meta, grid_spec
 
 ID = "C19"
 RULE = (
-    "Hypothesis draws a grid spec: dim 1-3; Cartesian / tensor (random spacings) / structured triangles and "
+    "Hypothesis draws a grid spec: dim 1-3; Cartesian / tensor (random spacings) / structured triangles (a third of them "
+    "handed to TriangleGrid as a user-supplied cell-node array with the node order of every cell permuted) and "
     "tetrahedra / hand-assembled mixed polygons (quads, triangles, hexagons with hanging nodes; loop-consistent "
     "or index-oriented incidence, the latter exercising the convex-cell fallback of _compute_geometry_2d) and "
     "their extrusion to polyhedra / gmsh simplices (thorough); interior-node perturbation, affine maps (3-d), "
@@ -29,7 +30,7 @@ LEVEL_NOTE = ("Grids have at most a few hundred cells and planar faces; toleranc
               "Finds violations, does not prove absence.")
 DESIGN_REF = "DESIGN.md section 4, C19"
 ASSUMPTIONS = ["faces are planar (all generated families)", "cells convex where the incidence is not loop-oriented"]
-REQUIRED = {"recomputed-small": 0.2, "recomputed-large": 0.1, "dim1": 0.1, "dim2": 0.1, "dim3": 0.1, "perturbed": 0.05, "embedded": 0.1, "kind-poly": 0.02,
+REQUIRED = {"tri-user-node-order": 0.01, "recomputed-small": 0.2, "recomputed-large": 0.1, "dim1": 0.1, "dim2": 0.1, "dim3": 0.1, "perturbed": 0.05, "embedded": 0.1, "kind-poly": 0.02,
             "kind-polyx": 0.01, "kind-tet": 0.02, "kind-tri": 0.02}
 
 
@@ -41,7 +42,7 @@ def strategy(tier):
     # by a factor 1 + eps about a point of the grid (a second compute_geometry must not remember the first)
     from hypothesis import strategies as st
 
-    g = grid_spec(gmsh=(tier == "thorough"), scales=True)
+    g = grid_spec(gmsh=(tier == "thorough"), scales=True, tri_user=True)
     return st.tuples(g, st.sampled_from(RECOMPUTE)).map(lambda t: dict(t[0], recompute=t[1]) if t[1] else t[0])
 
 
